@@ -21,6 +21,10 @@ type table struct {
 	File string
 	Cols []string
 	Rows [][]string
+	// Short: data rows written with fewer cells than the header (row index -> number of cells kept);
+	// the model cells beyond that are blank. Most CSV readers reject such a file; one that tolerates it
+	// must read the missing cells as absent.
+	Short map[int]int
 }
 
 func (t *table) col(name string) int {
@@ -62,6 +66,12 @@ func (t *table) dropCol(name string) {
 
 func (t *table) clone() *table {
 	n := &table{File: t.File, Cols: append([]string{}, t.Cols...)}
+	if t.Short != nil {
+		n.Short = map[int]int{}
+		for k, v := range t.Short {
+			n.Short[k] = v
+		}
+	}
 	for _, r := range t.Rows {
 		n.Rows = append(n.Rows, append([]string{}, r...))
 	}
@@ -189,7 +199,12 @@ func renderCSV(t *table, p presentation) []byte {
 	lines := []string{line(func(i int) string { return cols[i] }, "x_unknown_column")}
 	for r, row := range t.Rows {
 		row := row
-		lines = append(lines, line(func(i int) string { return row[i] }, fmt.Sprintf("junk %d, \"q\"", r)))
+		l := line(func(i int) string { return row[i] }, fmt.Sprintf("junk %d, \"q\"", r))
+		if keep, ok := t.Short[r]; ok {
+			// cut the rendered row after `keep` cells (only used with the default column order, no extra column, plain cells)
+			l = strings.Join(strings.Split(l, ",")[:keep], ",")
+		}
+		lines = append(lines, l)
 	}
 	if p.BlankLines {
 		sb.WriteString(strings.Join(lines, nl+nl))
